@@ -86,7 +86,7 @@ harness("name_padwing_4", "midas::PadwingBankName::try_from(&str)", True, bound=
 harness("name_fixed_4", "Trigger/Trb3/Seq2/McVertex/ChronoboxBankName::try_from(&str)", True, bound="all 4-byte strings", timeout=1500)
 harness("name_main_event_4", "MainEventBankName / Alpha16BankName dispatch", True, bound="all 4-byte strings", timeout=3000)
 harness("name_other_lengths", "bank-name parsers on strings of 0..=8 bytes except 4", False, bound="string length <= 8 bytes", timeout=3000)
-harness("adc_len16", "AdcV3Packet::try_from on [u8;16]", False, bound="length 16 (suppressed form), all bytes", decode=bytes_op("adc", 16))
+harness("adc_len016", "AdcV3Packet::try_from on [u8;16]", False, bound="length 16 (suppressed form), all bytes", decode=bytes_op("adc", 16))
 harness("adc_short_lengths", "AdcV3Packet::try_from on lengths 0..=35 except 16", False, bound="lengths <= 35", decode=bytes_len_op("adc", 35))
 harness("adc_len164", "AdcV3Packet::try_from on [u8;164] (64 samples)", False, bound="length 164, all bytes", timeout=3000, decode=bytes_op("adc", 164))
 harness("adc_len166", "AdcV3Packet::try_from on [u8;166] (65 samples)", False, bound="length 166, all bytes", timeout=3000, decode=bytes_op("adc", 166))
